@@ -7,7 +7,12 @@ import WsVerif.Lemmas.Fld.Top
 import WsVerif.Lemmas.Fld.Table
 import WsVerif.Lemmas.Fld.Sort
 import WsVerif.Lemmas.Fld.Part
+import WsVerif.Lemmas.Fld.Eff
+import WsVerif.Lemmas.Fld.T1
+import WsVerif.Lemmas.Fld.T2
+import WsVerif.Lemmas.Fld.T3
 /-! Helper lemmas for `Props/C20fld.lean`: memory safety and termination of the flooding loops of `pt_fld`
 (`Model/Specpart.lean`).  `Fld/Base` = bounds-checked accessors, verification-condition tactics, the circular FIFO,
 pigeonhole counting; `Fld/S1a`, `Fld/S1b`, `Fld/S1c`, `Fld/S2`, `Fld/Top` = invariants and Hoare triples (`Std.Do`) of the
-individual loops and their composition. -/
+individual loops and their composition; `Fld/Table`, `Fld/Sort`, `Fld/Part` = neighbour table, counting sort, `partition`;
+`Fld/Eff`, `Fld/T1`, `Fld/T2`, `Fld/T3` = label effect of the ghost trace (`effRun`) and the relation `TR`. -/
